@@ -330,3 +330,273 @@ pub fn main(args: &Args) -> std::io::Result<()> {
     w.finish()?;
     st.write(&args.out.join(format!("{}_stats.json", prefix)))
 }
+
+// ===================================================================== C03: curves and shapes
+
+/// reference outline of a curved path: every curve sampled uniformly with `n` points (not lyon's
+/// flattening), returned as f32 edges together with the largest chord deviation of the sampling
+pub fn reference_outline(spec: &PathSpec, n: usize) -> (Vec<(Point, Point)>, f64) {
+    use lyon_path::geom::{CubicBezierSegment, QuadraticBezierSegment};
+    let mut edges = Vec::new();
+    let mut dev = 0.0f64;
+    for s in &spec.subs {
+        let mut cur = s.start;
+        let mut pts = vec![cur];
+        for g in &s.segs {
+            match g {
+                Seg::Line(p, _) => {
+                    pts.push(*p);
+                    cur = *p;
+                }
+                Seg::Quad(c, p, _) => {
+                    let q = QuadraticBezierSegment { from: cur, ctrl: *c, to: *p };
+                    // chord deviation of a quadratic piece of parameter width h is |from - 2 ctrl + to| h^2 / 4
+                    let dd = (cur.to_vector() - c.to_vector() * 2.0 + p.to_vector()).length() as f64;
+                    dev = dev.max(dd / (4.0 * (n * n) as f64));
+                    for i in 1..=n {
+                        pts.push(if i == n { *p } else { q.sample(i as f32 / n as f32) });
+                    }
+                    cur = *p;
+                }
+                Seg::Cubic(c1, c2, p, _) => {
+                    let q = CubicBezierSegment { from: cur, ctrl1: *c1, ctrl2: *c2, to: *p };
+                    // |B''| <= 6 max(|P0 - 2P1 + P2|, |P1 - 2P2 + P3|); chord deviation <= |B''| h^2 / 8
+                    let a = (cur.to_vector() - c1.to_vector() * 2.0 + c2.to_vector()).length() as f64;
+                    let b = (c1.to_vector() - c2.to_vector() * 2.0 + p.to_vector()).length() as f64;
+                    dev = dev.max(6.0 * a.max(b) / (8.0 * (n * n) as f64));
+                    for i in 1..=n {
+                        pts.push(if i == n { *p } else { q.sample(i as f32 / n as f32) });
+                    }
+                    cur = *p;
+                }
+            }
+        }
+        for w in pts.windows(2) {
+            edges.push((w[0], w[1]));
+        }
+        edges.push((*pts.last().unwrap(), s.start));
+    }
+    (edges, dev)
+}
+
+fn to64(e: &[(Point, Point)]) -> Vec<((f64, f64), (f64, f64))> {
+    e.iter().map(|(a, b)| ((a.x as f64, a.y as f64), (b.x as f64, b.y as f64))).collect()
+}
+
+/// K2-prone curve in the path (see known_findings: flattening uses too few segments)
+fn has_degenerate_curve(spec: &PathSpec) -> bool {
+    let near = |a: Point, b: Point, c: Point| -> bool {
+        // control point b seen from a..c: hairpin or overshoot
+        let (u, v) = (b - a, c - a);
+        let l2 = v.square_length();
+        if l2 == 0.0 {
+            return b != a;
+        }
+        let t = u.dot(v) / l2;
+        if t < 0.0 || t > 1.0 {
+            return true;
+        }
+        let (p, q) = (a - b, c - b);
+        let (lp, lq) = (p.length(), q.length());
+        lp > 0.0 && lq > 0.0 && p.dot(q) / (lp * lq) > 0.906
+    };
+    for s in &spec.subs {
+        let mut cur = s.start;
+        for g in &s.segs {
+            match g {
+                Seg::Line(p, _) => cur = *p,
+                Seg::Quad(c, p, _) => {
+                    if near(cur, *c, *p) {
+                        return true;
+                    }
+                    cur = *p;
+                }
+                Seg::Cubic(c1, c2, p, _) => {
+                    // cubics: cusps / loops / hairpins produce degenerate sub-quadratics; be generous
+                    let d1 = *c1 - cur;
+                    let d2 = *p - *c2;
+                    let chord = *p - cur;
+                    if near(cur, *c1, *p) || near(cur, *c2, *p) || d1.dot(d2) < 0.0 || d1.dot(chord) < 0.0 || d2.dot(chord) < 0.0 {
+                        return true;
+                    }
+                    cur = *p;
+                }
+            }
+        }
+    }
+    false
+}
+
+pub fn main_c03(args: &Args) -> std::io::Result<()> {
+    use lyon_path::geom::euclid::default::Box2D;
+    use lyon_path::math::{vector, Angle};
+    use lyon_path::traits::PathBuilder;
+    use lyon_path::Winding;
+    use std::io::Write;
+    let mut st = Stats::default();
+    let mut w = ShardWriter::new(&args.out, "c03_cases", args.shards, HEADER, "bad_cases");
+    w.disabled = args.direct_only();
+    let mut idx = std::fs::File::create(args.out.join("c03_index.txt"))?;
+    let mut rng = Rng::new(args.seed ^ 0x03);
+    let n = if args.thorough() { 5000 } else { 600 };
+    let mut id = 0usize;
+    for it in 0..n {
+        let rule = if it % 2 == 0 { FillRule::EvenOdd } else { FillRule::NonZero };
+        let tol = *rng.pick(&[1.0f32, 0.25, 0.1, 0.02]);
+        let opts = FillOptions::tolerance(tol).with_fill_rule(rule);
+        let entry = FILL_ENTRIES[(it / 2) % FILL_ENTRIES.len()];
+        // ---- curved paths
+        let mut spec = match it % 4 {
+            3 => {
+                // two sub-paths sharing a curved edge in opposite directions (crack / overlap detector)
+                let a = point(rng.range(0, 4) as f32, rng.range(0, 4) as f32);
+                let b = point(rng.range(8, 12) as f32, rng.range(6, 12) as f32);
+                let c1 = point(rng.range(2, 10) as f32, rng.range(-6, 2) as f32);
+                let c2 = point(rng.range(6, 14) as f32, rng.range(0, 6) as f32);
+                let far1 = point(a.x - 3.0, b.y + 5.0);
+                let far2 = point(b.x + 4.0, a.y - 6.0);
+                PathSpec {
+                    n_attr: 0,
+                    subs: vec![
+                        Sub { start: a, start_attrs: vec![], segs: vec![Seg::Cubic(c1, c2, b, vec![]), Seg::Line(far1, vec![])], close: true },
+                        Sub { start: b, start_attrs: vec![], segs: vec![Seg::Cubic(c2, c1, a, vec![]), Seg::Line(far2, vec![])], close: true },
+                    ],
+                }
+            }
+            _ => random_curved(&mut rng, 0, 2, 4, 14),
+        };
+        for s in spec.subs.iter_mut() {
+            s.close = true;
+        }
+        let label = format!("{:?} tol {} {:?} {}", rule, tol, entry, spec.text());
+        st.inc("evaluations");
+        st.inc("curved_paths");
+        let out = fill(entry, &spec, &opts);
+        match out.ok {
+            None => st.fail(jobj(&[("what", jstr("fill tessellation panicked")), ("input", jstr(&label))])),
+            Some(false) => st.inc("returned_err"),
+            Some(true) => {
+                st.note_case(&label, !out.tris.is_empty());
+                let (fine, dev_fine) = reference_outline(&spec, 200);
+                let band = tol as f64 * (1.0 + 1.0 / 64.0) + dev_fine + 1e-4;
+                if let Some(msg) = direct_coverage(&to64(&fine), &out.positions, &out.tris, rule, band, &mut rng, true) {
+                    let mut fields = vec![("what", jstr(&format!("curved fill is off by more than the tolerance: {}", msg))), ("input", jstr(&label))];
+                    if has_degenerate_curve(&spec) {
+                        fields.push(("class", jstr("K2")));
+                    } else {
+                        // within the 1.5 e flattening budget (K6)?
+                        let band6 = tol as f64 * 1.5 + dev_fine + 1e-4;
+                        let mut r2 = Rng::new(7);
+                        if direct_coverage(&to64(&fine), &out.positions, &out.tris, rule, band6, &mut r2, true).is_none() {
+                            fields.push(("class", jstr("K6")));
+                        }
+                    }
+                    st.fail(jobj(&fields));
+                } else if it % 6 == 0 && out.tris.len() <= 40 && !has_degenerate_curve(&spec) {
+                    // verified checker on a coarser reference (band widened by its own deviation and by the
+                    // flattening budget 1.5 e so that K6 does not produce witnesses)
+                    let (coarse, dev) = reference_outline(&spec, 12);
+                    let band_c = tol as f64 * 1.5 + dev + 1e-3;
+                    st.sample(format!("{} -> {} triangles", label, out.tris.len()));
+                    writeln!(idx, "{}\t{}", id, label).ok();
+                    w.push(case_literal(id, rule, band_c, &coarse, &out));
+                    st.inc("cases_for_verified_checker");
+                    id += 1;
+                }
+            }
+        }
+        // ---- built-in shapes against the exact shape (fine polygon of the true circle / ellipse)
+        let shape = match it % 5 {
+            0 => Shape::Circle(rng.range(-5, 5) as f32, rng.range(-5, 5) as f32, 0.5 + rng.below(400) as f32 * 0.25),
+            1 => Shape::Ellipse(rng.range(-5, 5) as f32, rng.range(-5, 5) as f32, 1.0 + rng.below(40) as f32, 1.0 + rng.below(40) as f32, rng.range(0, 6) as f32 * 0.5),
+            2 => Shape::Rect(rng.range(-5, 5) as f32, rng.range(-5, 5) as f32, 1.0 + rng.below(20) as f32, 1.0 + rng.below(20) as f32),
+            3 => Shape::Circle(0.0, 0.0, 425.0),
+            _ => Shape::Circle(1.0, 2.0, 1.0 + rng.below(50) as f32),
+        };
+        let stol = *rng.pick(&[1.0f32, 0.139, 0.1, 0.02]);
+        let sopts = FillOptions::tolerance(stol).with_fill_rule(rule);
+        let slabel = format!("{:?} tol {} {:?}", shape, stol, rule);
+        st.inc("evaluations");
+        st.inc("shapes");
+        let mut buffers: VertexBuffers<Point, u32> = VertexBuffers::new();
+        let (ok, calls, positions) = {
+            let mut rec = Recorder::new(&mut buffers, None);
+            let ok = catch(AssertUnwindSafe(|| run_fill_shape(&mut FillTessellator::new(), &shape, &sopts, &mut rec))).map(|r| r.is_ok());
+            (ok, rec.calls.clone(), rec.positions.clone())
+        };
+        if ok != Some(true) {
+            st.fail(jobj(&[("what", jstr("shape tessellation failed or panicked")), ("input", jstr(&slabel))]));
+            continue;
+        }
+        let mut pos = vec![point(f32::NAN, f32::NAN); positions.iter().map(|p| p.0 as usize + 1).max().unwrap_or(0)];
+        for (i, p) in positions {
+            pos[i as usize] = p;
+        }
+        let tris: Vec<(u32, u32, u32)> = calls.iter().filter_map(|c| if let GCall::Tri(a, b, c) = c { Some((*a, *b, *c)) } else { None }).collect();
+        // exact outline
+        let m = 2880;
+        let exact: Vec<((f64, f64), (f64, f64))> = match &shape {
+            Shape::Circle(x, y, r) => (0..m).map(|i| {
+                let a0 = i as f64 / m as f64 * std::f64::consts::TAU;
+                let a1 = (i + 1) as f64 / m as f64 * std::f64::consts::TAU;
+                ((*x as f64 + *r as f64 * a0.cos(), *y as f64 + *r as f64 * a0.sin()), (*x as f64 + *r as f64 * a1.cos(), *y as f64 + *r as f64 * a1.sin()))
+            }).collect(),
+            Shape::Ellipse(x, y, rx, ry, rot) => {
+                let (c, s) = ((*rot as f64).cos(), (*rot as f64).sin());
+                let f = |a: f64| {
+                    let (ex, ey) = (*rx as f64 * a.cos(), *ry as f64 * a.sin());
+                    (*x as f64 + c * ex - s * ey, *y as f64 + s * ex + c * ey)
+                };
+                (0..m).map(|i| (f(i as f64 / m as f64 * std::f64::consts::TAU), f((i + 1) as f64 / m as f64 * std::f64::consts::TAU))).collect()
+            }
+            Shape::Rect(x, y, w, h) => {
+                let p = [(*x as f64, *y as f64), ((*x + *w) as f64, *y as f64), ((*x + *w) as f64, (*y + *h) as f64), (*x as f64, (*y + *h) as f64)];
+                (0..4).map(|i| (p[i], p[(i + 1) % 4])).collect()
+            }
+        };
+        let rmax = match &shape { Shape::Circle(_, _, r) => *r as f64, Shape::Ellipse(_, _, a, b, _) => a.max(*b) as f64, _ => 0.0 };
+        let poly_err = rmax * (1.0 - (std::f64::consts::PI / m as f64).cos());
+        st.note_case(&slabel, !tris.is_empty());
+        if let Some(msg) = direct_coverage(&exact, &pos, &tris, rule, stol as f64 * (1.0 + 1.0 / 64.0) + poly_err + 1e-4, &mut rng, true) {
+            let mut fields = vec![("what", jstr(&format!("shape fill is off by more than the tolerance: {}", msg))), ("input", jstr(&slabel))];
+            // K3: fill_circle rounds the recursion depth down (num_segments.log2() as u32)
+            if matches!(shape, Shape::Circle(..)) {
+                let mut r2 = Rng::new(9);
+                if direct_coverage(&exact, &pos, &tris, rule, stol as f64 * 4.0 + poly_err + 1e-4, &mut r2, true).is_none() {
+                    fields.push(("class", jstr("K3")));
+                }
+            } else if matches!(shape, Shape::Ellipse(..)) {
+                // ellipses go through arc flattening (K10: locally-constant-radius step)
+                let mut r2 = Rng::new(9);
+                if direct_coverage(&exact, &pos, &tris, rule, stol as f64 * 4.0 + poly_err + 1e-4, &mut r2, true).is_none() {
+                    fields.push(("class", jstr("K10")));
+                }
+            }
+            st.fail(jobj(&fields));
+        }
+        // path-level helpers: add_circle / add_ellipse / add_rounded_rectangle / add_rectangle through the fill builder
+        if it % 3 == 0 {
+            let r = catch(AssertUnwindSafe(|| {
+                let mut buffers: VertexBuffers<Point, u32> = VertexBuffers::new();
+                let mut tess = FillTessellator::new();
+                let mut rec = Recorder::new(&mut buffers, None);
+                let mut b = tess.builder(&sopts, &mut rec);
+                match it % 4 {
+                    0 => b.add_circle(point(0.0, 0.0), 10.0, Winding::Positive),
+                    1 => b.add_ellipse(point(1.0, 1.0), vector(12.0, 5.0), Angle::radians(0.4), Winding::Negative),
+                    2 => b.add_rounded_rectangle(&Box2D { min: point(0.0, 0.0), max: point(20.0, 10.0) }, &lyon_path::builder::BorderRadii::new(3.0), Winding::Positive),
+                    _ => b.add_rectangle(&Box2D { min: point(0.0, 0.0), max: point(20.0, 10.0) }, Winding::Positive),
+                }
+                let ok = lyon_path::traits::Build::build(b).is_ok();
+                (ok, rec.calls.len())
+            }));
+            st.inc("evaluations");
+            st.inc("path_level_shape_helpers");
+            if !matches!(r, Some((true, n)) if n > 3) {
+                st.fail(jobj(&[("what", jstr("path-level shape helper through the fill builder failed")), ("input", jstr(&format!("helper {} {:?}", it % 4, r)))]));
+            }
+        }
+    }
+    w.finish()?;
+    st.write(&args.out.join("c03_stats.json"))
+}
